@@ -1218,8 +1218,12 @@ def oracle(ctx: Ctx) -> None:
 
 def replay(ctx: Ctx, data: Dict[str, Any]) -> Any:
     inp = data["failure"]["input"] if "failure" in data else data
+    if "mm" not in inp and data.get("disagreements"):
+        inp = data["disagreements"][0]["input"]  # a broken correspondence without a failing input: replay the first disagreement
     if "input" in inp and "mm" not in inp:
         inp = inp["input"]
+    if "mm" not in inp:
+        return {"error": "nothing to replay: the file names a broken theorem / extraction only", "no_longer_checks": data.get("no_longer_checks")}
     sub = Ctx(ctx.prop, ctx.tier, ctx.seed)
     sub.driver_ok = ctx.driver_ok
     trees = [W.from_jsonable(inp["instance"])] if "instance" in inp else []
